@@ -131,6 +131,19 @@ func (s *sim) generate() {
 	s.cfg.TotalLimit = 1 << 40 // head deletion is outside the statement (assumption)
 	s.cfg.HousekeepingInterval = time.Second
 	s.cfg.SyncInterval = []time.Duration{time.Second, 10 * time.Millisecond, time.Hour}[t.Choose("syncint", 3)]
+	if t.Permille("manysegs", 150) {
+		// warm-up: many small segments, so that the crash happens with segment indexes of different
+		// widths (w_9 / w_10, rarely w_99 / w_100) in the directory
+		k := 8 + t.Choose("manysegs.k", 6)
+		if t.Permille("manysegs.100", 60) {
+			k = 97 + t.Choose("manysegs.k100", 6)
+			s.maxForks = 300
+		}
+		for i := 0; i < k; i++ {
+			s.ops = append(s.ops, op{kind: opAppend, payload: s.genPayload(t)[:0]}, op{kind: opAppend, payload: s.genPayload(t)}, op{kind: opShift})
+		}
+		s.rc.Probe("many_segments_warm_up")
+	}
 	n := t.Range("nops", 3, 24)
 	maxCrash := 1 + t.Choose("ncrash", 3)
 	for i := 0; i < n; i++ {
@@ -494,13 +507,37 @@ func (s *sim) crash(f *fork, pos int, depth int) {
 	type variant struct {
 		cut     int64
 		missing bool
+		junkAt  int64 // > 0: the file keeps its full length, but from this offset on (just behind the header of an unsynced record) the bytes are junk
 	}
 	var vs []variant
 	for _, c := range cuts {
-		vs = append(vs, variant{c, false})
+		vs = append(vs, variant{c, false, 0})
+	}
+	// Torn sectors (beyond the "prefix" crash model of the statement, but what a checksum is for and what C02
+	// calls "torn records"): the header of an unsynced record reached the disk, its payload did not - what is
+	// there instead is junk of the right length. First, last and one middle unsynced record.
+	{
+		var heads []int64
+		off := int64(0)
+		for off+8 <= int64(len(tail.data)) {
+			plen := int64(binary.BigEndian.Uint32(tail.data[off+4 : off+8]))
+			if off >= floor && plen > 0 && off+8+plen <= int64(len(tail.data)) {
+				heads = append(heads, off)
+			}
+			off += 8 + plen
+		}
+		pick := map[int64]bool{}
+		if n := len(heads); n > 0 {
+			pick[heads[0]], pick[heads[n-1]], pick[heads[n/2]] = true, true, true
+		}
+		for _, h := range heads {
+			if pick[h] {
+				vs = append(vs, variant{int64(len(tail.data)), false, h + 8})
+			}
+		}
 	}
 	if floor == 0 && len(segs) > 1 {
-		vs = append(vs, variant{0, true}) // segment created after the last sync never reached the directory
+		vs = append(vs, variant{0, true, 0}) // segment created after the last sync never reached the directory
 	}
 	if depth == 0 {
 		rc.Event("crash segments=%d tail=%d floor=%d size=%d variants=%d", len(segs), tail.idx, floor, len(tail.data), len(vs))
@@ -524,11 +561,24 @@ func (s *sim) crash(f *fork, pos int, depth int) {
 					continue
 				}
 				data = data[:v.cut]
+				if v.junkAt > 0 {
+					data = append([]byte(nil), data...)
+					x := uint64(v.junkAt)*0x9e3779b97f4a7c15 + uint64(rc.Seed)
+					for k := v.junkAt; k < int64(len(data)); k++ {
+						x = x*6364136223846793005 + 1442695040888963407
+						data[k] = byte(x>>33) | 1
+					}
+				}
 			}
 			os.WriteFile(filepath.Join(dir, sg.name), data, 0600)
 		}
 		cls := "missing-new-segment"
-		if !v.missing {
+		if v.junkAt > 0 {
+			cls = "junk-payload"
+			if len(segs) > 1 {
+				cls += "/multiseg"
+			}
+		} else if !v.missing {
 			cls = classifyCut(tail.data, v.cut)
 			if len(segs) > 1 {
 				cls += "/multiseg"
@@ -539,6 +589,9 @@ func (s *sim) crash(f *fork, pos int, depth int) {
 			path: fmt.Sprintf("%s/c%d@%d", f.path, pos, v.cut)}
 		if v.missing {
 			nf.path = fmt.Sprintf("%s/c%d@missing", f.path, pos)
+		}
+		if v.junkAt > 0 {
+			nf.path = fmt.Sprintf("%s/c%d@junk%d", f.path, pos, v.junkAt)
 		}
 		rc.Metric("forks", 1)
 		// recover, check, continue the same remaining history
